@@ -162,6 +162,18 @@ def specFirstLiteral (log : List Version) (asof : Option Int) : TS :=
 def history (log : List Version) : Option Store :=
   log.foldl (fun st v => some (biMerge st (Bi v.ts v.stamp))) none
 
+/-- one `bi_merge` call of a history, with the input the code rejects (`biMergeE`) -/
+def mergeStepE (acc : Res (Option Store)) (v : Version) : Res (Option Store) :=
+  match acc with
+  | .error e => .error e
+  | .ok st => match biMergeE st (Bi v.ts v.stamp) with
+    | .error e => .error e
+    | .ok s => .ok (some s)
+
+/-- the history as the code runs it: `bi_merge` raises `ValueError` when both frames are empty (`pd.concat([])`), and the
+    exception ends the history -/
+def historyE (log : List Version) : Res (Option Store) := log.foldl mergeStepE (.ok none)
+
 /-- the store after merging batches of versions (each batch handed to one `bi_merge` call as a list) -/
 def historyL (batches : List (List Version)) : Option Store :=
   batches.foldl (fun st b => biMergeL st (b.map fun v => Bi v.ts v.stamp)) none
